@@ -1050,3 +1050,45 @@ def name_index_selects(F):
     elif count[0] < 2:
         r.undecided("fewer than two function-name writes found under the Name::Function arm (%d): the arm was restructured beyond what this rule follows" % count[0])
     return r
+
+
+def namemap_copy_complete(F):
+    """R-NAMEMAP-COPY: the converters that copy a parsed name map into the encoder's name map copy *every* decoded entry:
+    inside the copy loop the `append` is not under an `if`, and no `continue` precedes it.  (A `break` on a decoding error
+    ends the map — that is the documented behaviour for a malformed custom section — and is not a filter.)  A filter on
+    the way (de-duplication by name, a bounds test) silently drops names the module carries."""
+    from vlib.facts import path_to, conditional_ancestors, sp_before
+    r = RuleResult("R-NAMEMAP-COPY",
+                   "every loop that copies a wasmparser name map into a wasm_encoder (Indirect)NameMap appends each decoded entry unconditionally: no `if` around the append, no `continue` before it")
+    n = 0
+    for fn in F.fns:
+        if fn.get("body") is None or not fn.get("file", "").endswith("ir/wrappers.rs"):
+            continue
+        for x in walk(fn["body"]):
+            if not (x.get("k") == "MethodCall" and x["method"] == "append" and "wasm_encoder" in ((x["recv"].get("ty") or "") + (x.get("callee") or "") + (x.get("inst") or "")) and "NameMap" in ((x["recv"].get("ty") or "") + (x.get("callee") or "") + (x.get("inst") or ""))):
+                continue
+            pth = path_to(fn["body"], x) or []
+            loops = [a for a, _ in pth if isinstance(a, dict) and a.get("k") == "Loop"]
+            if not loops:
+                continue
+            lp = loops[-1]
+            n += 1
+            if fn["path"] not in r.analysed:
+                r.analysed.append(fn["path"])
+            conds = [c for c in (conditional_ancestors(lp, x) or []) if c.get("k") == "If" and peel(c.get("cond") or {}).get("k") != "LetExpr"]
+            conts = []
+            for y in walk(lp):
+                if y.get("k") == "Continue" and y.get("sp") and sp_before(y, x):
+                    inner = [a for a, _ in (path_to(lp, y) or []) if isinstance(a, dict) and a.get("k") in ("Loop", "Closure") and a is not lp]
+                    if not inner:
+                        conts.append(y)
+            ok = not conds and not conts
+            r.ob(ok, {"fn": fn["path"], "append": "unconditional" if ok else ("under an if" if conds else "after a continue")})
+            if not ok:
+                r.violate("%s | filtered copy" % fn["path"], F.loc(fn, (conds or conts)[0]),
+                          "%s does not append every decoded entry of the name map (%s): names the input carries are dropped from the output" % (
+                              fn["name"], "the append is under an `if`" if conds else "a `continue` skips entries before the append"))
+    r.count("copy_loops", n)
+    if n < 1:
+        r.undecided("no loop in ir/wrappers.rs appends to a wasm_encoder name map: the copy was restated in a form this rule does not follow")
+    return r
